@@ -277,7 +277,7 @@ GENERATE_TB = [
     KERNEL,
     "the theorem statements in lean/ScrutModel/Props being a faithful reading of the property",
     CORR,
-    "hand-written model lean/ScrutModel/Model/Generate.lean of generate_expectation_line, looks_like_modifier_or_exit_code, generate_testcase_expression, generate_testcase (Ok / MalformedOutput with unexpected lines only / InvalidExitCode), MarkdownTestCaseGenerator (max_backtick_size) and CramTestCaseGenerator (cram_indented) for one outcome without title; tied to the code by comparing the whole generated document byte for byte on every case",
+    "hand-written model lean/ScrutModel/Model/Generate.lean of generate_expectation_line, looks_like_modifier_or_exit_code, generate_testcase_expression, generate_testcase (all three rendered branches, for a test without expectations = create and for a test with any expectations and any diff = update: generateTestcaseUpd; the former proved to be the special case of the latter), MarkdownTestCaseGenerator (max_backtick_size) and CramTestCaseGenerator (cram_indented) for one outcome without title; tied to the code by comparing the whole generated document byte for byte on every case",
     "the component models the theorems compose (Newline, Escaping, EscapedFilter, RulesStr, Grammar, LineParser, Diff, Exec), each tied to the code by the correspondence of its own property (C01-C08, C11)",
     "parameters: char::is_other() (unicode mode: assumed to be exactly the control characters on ASCII, real value passed per case), the regex crate's \\s and char::is_whitespace taken as the Unicode White_Space table of Model/Grammar.lean (compared per code point under C08), glob/regex rule constructors (arbitrary: no generated line uses them)",
     "String::from_utf8_lossy only on valid UTF-8 (its use on a command or on a printable line); the Markdown/Cram document parsers reading the generated wrapper back as one test with the same command and these lines: not a Lean theorem, checked on every case by the oracle real generator -> real parser -> real validate",
@@ -288,19 +288,21 @@ GENERATE_RULE = (
     "(1) every output of up to 2 (thorough 3) lines over an 18-line collision alphabet (foo, `foo (glob)`, `foo (?)`, `foo ()`, `[1]`, `$ x`, `> x`, a fence, empty, blanks, control character, backslash, non-ASCII, invalid UTF-8, `# c`, ` (no-eol)` endings) x final line feed x format x escaper x exit code {0,1,255}; "
     "(2) every line prefix x middle x suffix over 7x8x10 syntax fragments (command leads, brackets, fences x text, control, backslash, invalid UTF-8 x modifiers, ` (no-eol) (escaped)`, white-space flavours), alone or as second line, x final line feed x format x escaper; "
     "(3) seeded random byte strings with multi-line, non-ASCII and stderr-validated commands; (4) commands (empty -> index panic as a value, blank continuation lines, non-ASCII, `$ `/`> ` inside); "
-    "(5) update: random Markdown documents with perturbed outputs and the greedy witness (oracle only for this property: the rewritten block passes on the output it was updated from). "
+    "(5) update: random Markdown documents with perturbed outputs and the greedy witness (oracle only: the rewritten block passes on the output it was updated from); "
+    "(6) update, generate_testcase for a test WITH expectations: real outcomes from real TestCase::validate -- every list of up to 2 (thorough 3) expectations over 6 texts (plain, glob, `?`, `+`, `*` quantified) x every output of up to 3 (thorough 4) lines over 5 lines (matched by one / several / none, `[1]`, `$ x<ctl>`) x final line feed, exit code expected or not (InvalidExitCode with actual 0 and non-zero), plus seeded random lists over 14 texts x random outputs x commands x stderr: the REAL diff (matched / unmatched / unexpected entries with their line indices) is sent to the model op `genupd` and the text of generate_testcase is compared byte for byte; the written document goes through the real parser and the real validate (failures with a retained quantified expectation are the open finding's class). "
     "non-trivial = output of at least 2 bytes / document with a scrut block; distinct = distinct model op line"
 )
 PROPS["C09"] = {"rule": GENERATE_RULE, "trusted_base": GENERATE_TB, "assumptions": [
     "the Lean model is tied to the Rust code by differential execution, not by translation",
     "the output is what TestCase::validate sees (after render_output); exit codes are process exit codes 0..255 for the read-back theorem",
     "create: no title, configuration = the format's default or output_stream: stderr",
+    "update (C09_update_unquantified_passes): the test's expectations enter as their quantifiers and an arbitrary match matrix; that the original text of a retained expectation parses back to the same expectation is not modelled (decided by the update oracles: real update -> real parser -> real validate); the guard `no expectation is quantified` excludes exactly the open finding",
     "command-line glue (src/bin/commands/create.rs, update.rs) is not modelled: it is tied end to end by harness/src/cli.rs, which runs the built binary on commands with known output (cat <payload>; (exit N)) and compares the written document (minus the title the command line adds) with the model's `gen` answer, with the library generator fed the known output, and with `scrut test` on the written file",
 ], "needs_bin": True}
 
 MANIFEST_TEXT = {
     "C09": {
-        "text": "CREATE. Machine-checked (Lean 4, every output byte string, both escapers, no guard): for every line of split_at_newline(output), generate_expectation_line does not panic and writes a text that contains no line feed, starts with neither `$ ` nor `> `, is no `[digits]` line -- so add_testcase_body appends it to the expectations of the open test in either parser mode (C09_line_is_expectation) -- and that the expectation grammar parses to an UNQUANTIFIED expectation of kind equal, no-eol or escaped whose rule (EqualRule / EqualNoEolRule / EscapedRule::make + matches) matches exactly that line (C09_line_roundtrip; covers `[1]`, `$ x`, `> x`, `foo (glob)`, `foo ()`, ` (no-eol)` endings incl. the \\x20 rewrite and the \\x24/\\x3e first-character escape, control characters, backslashes, invalid UTF-8, missing final line feed). Composition: all three reachable branches of generate_testcase write command + one such line per output line + `[code]` iff code != 0 (C09_create_shape, C09_create_lines_written, C09_create_outcome); the matcher run with the parsed expectations against the same output reports no difference (C09_create_passes, via C03_own_lines); `[c]` reads back as c for 0..255 and validate then says ok (C09_exit_code_roundtrip, C09_create_verdict); the Markdown fence is longer than any backtick run at a line start (C09_markdown_fence). Key lemma: everything written in front of ` (escaped)` is a sequence of decoder tokens in which a blank is only ever the blank piece and a non-backslash first character is its own piece, so `\\x20` and `\\xHH` rewrites keep the decoded bytes (Lemmas/GeneratePieces.lean). THROUGH THE DOCUMENT PARSER (Markdown): for every command given by its lines, every output, exit code 0..255, both escapers and both inline configurations, the document create prints is read back by the Markdown parser model (C06) as exactly one test with the same command lines, the generated texts as expectations, the exit code and the configuration (C09_create_markdown_end_to_end: the fence of max_backtick_size+1 backticks is recognised, no generated line closes the block, ends in CR, continues the command or is a second exit code). The same for `create --format cram` through the Cram parser model (C07): C09_create_cram_end_to_end (cram_indented puts every line behind two blanks = the rendering of one test of C07's grammar). Every generated character is printable -- ascii mode 0x20..0x7e, unicode mode no is_other character -- hence never CR or LF, so str::lines() returns the generated lines unchanged (C09_line_printable). What remains outside Lean on the create path is only what lies between the models and the real code: the byte-for-byte correspondence of the whole document, the parser correspondences of C06/C07, and the end-to-end oracle (real generator -> real parser -> real validate; since session 3 also through the real binary: scrut create, then scrut test) on every case. UPDATE: oracle only; the full statement is false (C09_update_fails_on_witness, open finding).",
+        "text": "CREATE. Machine-checked (Lean 4, every output byte string, both escapers, no guard): for every line of split_at_newline(output), generate_expectation_line does not panic and writes a text that contains no line feed, starts with neither `$ ` nor `> `, is no `[digits]` line -- so add_testcase_body appends it to the expectations of the open test in either parser mode (C09_line_is_expectation) -- and that the expectation grammar parses to an UNQUANTIFIED expectation of kind equal, no-eol or escaped whose rule (EqualRule / EqualNoEolRule / EscapedRule::make + matches) matches exactly that line (C09_line_roundtrip; covers `[1]`, `$ x`, `> x`, `foo (glob)`, `foo ()`, ` (no-eol)` endings incl. the \\x20 rewrite and the \\x24/\\x3e first-character escape, control characters, backslashes, invalid UTF-8, missing final line feed). Composition: all three reachable branches of generate_testcase write command + one such line per output line + `[code]` iff code != 0 (C09_create_shape, C09_create_lines_written, C09_create_outcome); the matcher run with the parsed expectations against the same output reports no difference (C09_create_passes, via C03_own_lines); `[c]` reads back as c for 0..255 and validate then says ok (C09_exit_code_roundtrip, C09_create_verdict); the Markdown fence is longer than any backtick run at a line start (C09_markdown_fence). Key lemma: everything written in front of ` (escaped)` is a sequence of decoder tokens in which a blank is only ever the blank piece and a non-backslash first character is its own piece, so `\\x20` and `\\xHH` rewrites keep the decoded bytes (Lemmas/GeneratePieces.lean). THROUGH THE DOCUMENT PARSER (Markdown): for every command given by its lines, every output, exit code 0..255, both escapers and both inline configurations, the document create prints is read back by the Markdown parser model (C06) as exactly one test with the same command lines, the generated texts as expectations, the exit code and the configuration (C09_create_markdown_end_to_end: the fence of max_backtick_size+1 backticks is recognised, no generated line closes the block, ends in CR, continues the command or is a second exit code). The same for `create --format cram` through the Cram parser model (C07): C09_create_cram_end_to_end (cram_indented puts every line behind two blanks = the rendering of one test of C07's grammar). Every generated character is printable -- ascii mode 0x20..0x7e, unicode mode no is_other character -- hence never CR or LF, so str::lines() returns the generated lines unchanged (C09_line_printable). What remains outside Lean on the create path is only what lies between the models and the real code: the byte-for-byte correspondence of the whole document, the parser correspondences of C06/C07, and the end-to-end oracle (real generator -> real parser -> real validate; since session 3 also through the real binary: scrut create, then scrut test) on every case. UPDATE: generate_testcase is modelled for a test with ANY expectations and ANY diff (generateTestcaseUpd: Ok -> original texts; MalformedOutput -> matched expectations written back as their original text, unexpected lines through generate_expectation_line, unmatched expectations dropped; InvalidExitCode -> every line regenerated, `[actual]` iff actual != 0), create's function is proved to be its special case `no expectations` (C09_create_is_update_special_case), and the text is tied to the code byte for byte on real outcomes with the real diff (op genupd). The full statement is false (C09_update_fails_on_witness, C09_update_witness_slots, open finding); its true part is machine-checked: for a test whose expectations -- of any kinds, any match matrix -- carry NO quantifier, the list update writes for the real matcher's diff has exactly one entry per output line, in line order, entry k being a retained expectation that matches line k or the expectation generated for line k (C09_update_unquantified_entries, from C02's conservation theorem; retained ones keep their order: C09_update_keeps_order), no entry carries a quantifier, and the matcher run on the updated list against the same lines reports no difference (C09_update_unquantified_passes, via C09_line_roundtrip and C03_own_lines); the text written is exactly the texts of these entries between command and exit code line (C09_update_text); a changed exit code discards all expectations and writes what create writes, for any expectations (C09_update_invalid_exit_code). Not in Lean for update: the hop through the document parser for retained original texts (oracle).",
         "design_ref": "DESIGN.md §6 C09",
         "note": "Open finding C09:update-retained-quantified-expectations (inherent to the greedy matcher; witness `a* (glob+)`, `zzz`, `*2 (glob)` on a1 a2 b2). Defects repaired by fix: e62618f (Cram trim_end), bc2a143 (syntax collisions, ` (escaped) (no-eol)` order, stderr stream), 9b34612 (found by this model: `$ foo (no-eol)` was written `\\x24 foo (no-eol) (escaped)` and failed on its own output; regression class C09:first-char-escape-drops-no-eol-guard). Unicode-mode theorems assume is_other on ASCII = control characters. An empty shell expression panics in generate_testcase_expression (index 0 of no lines): modelled as a value, not reachable from a non-empty command line. A command ending in a line feed reads back without it (outside the property's quantifier: outputs and exit codes).",
         "technique": "Lean 4 theorems composing the machine-checked component models (escaper, decoder, grammar, line parser, matcher, verdict) over an executable model of the generators + byte-for-byte differential correspondence of the generated document + end-to-end generate/parse/validate oracle",
